@@ -26,7 +26,7 @@ CLAUSES = {1: "index-table-is-not-the-three-slots", 2: "sent-under-wrong-unconfi
 
 class Prop:
     pid = "C07"
-    vo_check = ["theories/Keypairs/Check.vo"]
+    vo_check = ["theories/Keypairs/Check.vo", "theories/Gen/FreshAst.vo"]
     vo_props = ["theories/Props/C07.vo"]
     k_names = ["lifecycle(device.Peer keypairs/index table/handshake index after every event == Keypairs.Model.step)"]
     rule = ("scenarios on a real device (sim bind/tun, own reference peer) from one PRNG: handshakes completed as "
@@ -54,13 +54,16 @@ class Prop:
                    "the three idle scenarios shift by 179.5 s and wait in real time, discarded if an age comes within 30 ms of a whole second",
                    "message-count limits (RejectAfterMessages/RekeyAfterMessages), the 20 ms initiation flood limit (neutralised by a hook), cookies and the real-time timers are outside the slice",
                    "C07_model_satisfies_spec (holdsb accepts every model trace) assumes whole-second ticks and fewer than 10^9 - 1 events, the harness's discipline"]
-    trusted_extra = ["Base/Ints.v: primitive Uint63 literals carry the traces in generated case files only",
+    trusted_extra = ["translator harness/cmd/kkfast (go/parser: bodies of keepKeyFreshSending / keepKeyFreshReceiving as a deep-embedded AST; time.Since(keypair.created) is a recognised primitive (input age); only the sequential decision, the Load/Store race on the flag stays with the window scenarios; notes/C07-fresh-ast.md)",
+                     "Base/Ints.v: primitive Uint63 literals carry the traces in generated case files only",
                      "add-only hook file /repo/device/verif_c07.go (SendHandshakeInitiation as the timers call it, latch/lastSentHandshake accessor, two time shifts)",
                      "harness/ref: the harness's own WireGuard implementation decides which session opens a datagram",
                      "harness/cmd/c07/window.go: the device's public Logger as schedule point and peer.handshake.mutex reached through Device.LookupPeer + reflection (read-locked by the harness to park the worker inside BeginSymmetricSession)"]
 
     def __init__(self):
         self.dir = os.path.join(vlib.OUT, "C07")
+        # translator G2: keepKeyFreshSending / keepKeyFreshReceiving regenerated from the source on every run
+        self.translators = [lambda: vlib.gen_file("kkfast", os.path.join("Gen", "FreshAst.v"), ["-repo", vlib.REPO])]
         self.extra_coverage = {}
 
     def _load(self, d):
